@@ -1,6 +1,6 @@
 """C11 - the update stream is always a valid operation history."""
 from checks import oracles
-from checks.durable_check import replay_execution, run_durable
+from checks.durable_check import batch_limit_sweep, replay_execution, run_durable
 
 
 def run(ctx):
@@ -10,10 +10,14 @@ def run(ctx):
                 programs=list(__import__("checks.durable_common", fromlist=["CURATED"]).CURATED),
                 oracle_fns=[oracles.c11],
                 n_scen=(5, 14),
-                scen_kw={"crash": 0.7, "paging": 0.5},
+                scen_kw={"crash": 0.7, "paging": 0.5, "small_batch": 0.6},
                 sweep=["s05_wfcb_childfail_wfcfail"],
+                post=lambda c, ex: batch_limit_sweep(c, ["s07_nested_children", "s03_child_wfc"] if c.quick else
+                                                     ["s07_nested_children", "s03_child_wfc", "s05_wfcb_childfail_wfcfail",
+                                                      "s17_child_wfc_inside", "s08_large_child"],
+                                                     [oracles.c11], step=4 if c.quick else 1, ops=(250,) if c.quick else (250, 2, 3)),
                 extra_rule="Oracle: ModelBackend (twin of the Legal predicate) validates the concatenated stream over all invocations, "
-                           "including histories cut short by crashes at every point.")
+                           "including histories cut short by crashes at every point; batch byte limits swept over every overflow position.")
 
 
 replay = replay_execution
